@@ -111,6 +111,20 @@ Theorem C15_sum_into_more_fraction_bits : forall f total l ft r o,
   exists w, fxp_sum_into f total l ft r o = Ok w /\ int_wres ft o [zsum l * 2^(nf ft - nf f)] w.
 Proof. exact sum_into_more_fraction_bits. Qed.
 Print Assumptions C15_sum_into_more_fraction_bits.
+(* the same for an UNSIGNED operand: while the accumulation stays in uint64 (result word below 64 bits) the target word is below 64 bits too *)
+Theorem C15_sum_into_more_fraction_bits_unsigned : forall f total l ft r o,
+  sg f = false -> 1 <= nw f -> 1 <= total -> Z.of_nat (length l) <= total -> Forall (in_range f) l ->
+  1 <= nw ft -> (clog2 total + nw f < 64 -> nw ft < 64) -> 0 <= nf ft - nf f -> nf ft < 64 ->
+  exists w, fxp_sum_into f total l ft r o = Ok w /\ int_wres ft o [zsum l * 2^(nf ft - nf f)] w.
+Proof. exact sum_into_more_fraction_bits_unsigned. Qed.
+Print Assumptions C15_sum_into_more_fraction_bits_unsigned.
+(* product of a signed operand into a format with at least as many fraction bits as the exact product has *)
+Theorem C15_prod_into_more_fraction_bits : forall f l ft r o,
+  sg f = true -> 1 <= nw f -> (1 <= length l)%nat -> Forall (in_range f) l ->
+  1 <= nw ft -> 0 <= nf ft - Z.of_nat (length l) * nf f -> nf ft < 64 ->
+  exists w, fxp_prod_into f (Z.of_nat (length l)) l ft r o = Ok w /\ int_wres ft o [zprod l * 2^(nf ft - Z.of_nat (length l) * nf f)] w.
+Proof. exact prod_into_more_fraction_bits. Qed.
+Print Assumptions C15_prod_into_more_fraction_bits.
 Example C15_into_nonvacuous :
   let f := {| sg := true; nw := 60; nf := 8 |} in let ft := {| sg := true; nw := 64; nf := 2 |} in
   let l := [2^58 + 5; 2^58 + 77; -3] in
